@@ -10,7 +10,8 @@ RULE = ('every loop "async for now in interval(p)/delay(p)" with p in {0,1,2,0.5
         '(thorough) body durations from {none, instant, 1, 2, 3}, start time in {0,3,0.5}, iterator created 0 or 1 before iterating; '
         'alone, next to a second ticker, inside until(delay), cut off by run(till=), next to a volatile ticker that is closed while '
         'pausing (the root ticks on afterwards), launched with scope.do(at=/after=) from start times {0,-2,-4}, and with integer clocks '
-        'at 2**53 and 10**17+1; always next to a competing activity that is runnable in every time '
+        'at 2**53 and 10**17+1, with bodies that run a nested simulation, and (one deviation) cancelled at every activation boundary '
+        'next to two sibling tickers; always next to a competing activity that is runnable in every time '
         'step. Oracle: arithmetic model of tick times / yielded values / IntervalExceeded, and the competitor must get a turn between '
         'two iterations whenever the clock does not advance; non-trivial = some body took at least as long as the period, or p = 0')
 ASSUMPTIONS = [
@@ -19,11 +20,13 @@ ASSUMPTIONS = [
 ]
 INF = float('inf')
 DUR = {'n': [], 'i': [['INSTANT']], 1: [['D', 1]], 2: [['D', 2]], 3: [['D', 3]], 0.5: [['D', 0.5]],
-       0.1: [['D', 0.1]], 0.7: [['D', 0.7]], 1.1: [['D', 1.1]], 0.2: [['D', 0.2]]}
+       0.1: [['D', 0.1]], 0.7: [['D', 0.7]], 1.1: [['D', 1.1]], 0.2: [['D', 0.2]],
+       # bodies that run a complete nested simulation
+       's0': [['SUBRUN', 2]], 's1': [['D', 1], ['SUBRUN', 0]]}
 
 
 def dur(d):
-    return 0 if d in ('n', 'i') else d
+    return {'n': 0, 'i': 0, 's0': 0, 's1': 1}.get(d, d)
 
 
 def spinner(times):
@@ -48,7 +51,7 @@ def program(kind, period, durs, start, pre, second=None, until=None, launch=None
     after = []
     if closed:
         k3, p3 = closed
-        kids.insert(0, ['DO', 'tkv', [[k3, p3, 50, []]], {'volatile': True}])
+        kids.insert(0, ['DO', 'tkv', [[k3, p3, 50, [[] for _ in range(50)]]], {'volatile': True}])
         # the simulation goes on past the date at which the closed ticker would have ticked next
         after = [['TRY', [['INTERVAL', 2, 3, [[], [], []]]]], ['D', 8], ['PROBE', 'now']]
     horizon = [x * (1 if whole else 0.5) for x in range(0, 15 if whole else 30)]
@@ -107,6 +110,19 @@ def cases(tier):
                 for till in (2, 3, 4):
                     out.append(program(kind, period, seq, 0, None, till=till))
                     out.append(program(kind, period, seq, 3, None, till=till))
+    # bodies that run a nested simulation (the ticker's own simulation must be undisturbed afterwards)
+    for kind in ('INTERVAL', 'DELAYLOOP'):
+        for period in (0, 1, 2):
+            for seq in (('s0',), ('s1',), ('s0', 's0'), ('s1', 'n', 's0'), ('n', 's1', 's1'), (1, 's0', 2)):
+                out.append(program(kind, period, seq, 0, None))
+                out.append(program(kind, period, seq, 3, None, second=('INTERVAL', 1, ('n', 'n', 'n'))))
+    # the ticker is cancelled at every activation boundary (also in the time step of its last tick): siblings tick on
+    for kind in ('INTERVAL', 'DELAYLOOP'):
+        for period in (1, 2):
+            for seq in seqs[:30]:
+                p = program(kind, period, seq, 0, None, second=('INTERVAL', 1, ('n', 'n', 'n', 'n')), closed=('DELAYLOOP', 3))
+                p['_cancel'] = True
+                out.append(p)
     # tickers launched with scope.do(..., at= / after=): the grid is anchored where the ticker really starts
     for kind in ('INTERVAL', 'DELAYLOOP'):
         for period in (1, 2):
@@ -147,13 +163,13 @@ def expected(meta, t_begin):
     return ticks, ('end', t)
 
 
-def judge(ctx, program):
+def judge(ctx, program, hit=()):
     msgs = []
     log = ctx.log
     nontrivial = False
     launch = program['_meta'].get('launch')
     start = program.get('start', 0)
-    for act in ('tk', 'tk2', 'root'):
+    for act in ('tk', 'tk2', 'root', 'tkv'):
         begin = next((i for i, r in enumerate(log) if r[0] == 'iter-begin' and r[1] == act), None)
         if begin is None:
             if act == 'root' and len(program['roots'][0][1]) > 1 and program['_meta'].get('till') is None:
@@ -172,6 +188,14 @@ def judge(ctx, program):
         dl = INF
         if program['_meta'].get('till') is not None:
             dl = start + program['_meta']['till']
+        if act == 'tkv':
+            # a volatile ticker ticks until its scope ends (not just until the block of the scope ends)
+            left = next((r[3] for r in log if r[0] == 'scope-left' and r[1] == 'root'), None)
+            dl = min(dl, left) if left is not None else dl
+        if act in hit:
+            # the cancelled ticker: what it did before must be right, nothing is required of it afterwards
+            c = next((r[3] for r in log if r[0] == 'inject' and r[1] == act), INF)
+            dl = min(dl, c)
         if program['_meta']['until'] is not None and act == 'tk':
             ent = next(r for r in log if r[0] == 'scope-enter' and r[1] == act)
             dl = min(dl, ent[3] + program['_meta']['until'])
@@ -180,6 +204,8 @@ def judge(ctx, program):
         fin = next(((r[0], r[3], r[4]) for r in log[begin:] if r[0] in ('end', 'exc') and r[1] == act and r[2] == pc), None)
         want = [t for t in ticks if t < dl]
         tie = [t for t in ticks if t == dl]
+        if act in hit:
+            tie = tie + [t for t in ticks if t > dl][:0]
         gt = [t for _, t, _ in got]
         if gt[:len(want)] != want or len(gt) > len(want) + len(tie):
             msgs.append('%s %s(%r) ticked at %r, expected %r' % (act, meta['kind'], meta['period'], gt, want + tie))
@@ -234,14 +260,28 @@ def op_of(program, act, pc):
 
 def check_exec(program, faults=()):
     ctx = run_one(program, faults)
-    msgs, nontrivial = judge(ctx, program)
+    msgs, nontrivial = judge(ctx, program, hit={f['victim'] for f in faults})
     return ctx, msgs, nontrivial
 
 
 def explore_case(program, tier):
     ctx, msgs, nontrivial = check_exec(program)
-    return {'execs': 1, 'nontrivial': int(nontrivial), 'outcomes': {program['_meta']['kind']: 1},
-            'viol': [{'faults': [], 'msgs': msgs}] if msgs else [], 'counters': {}}
+    rep = {'execs': 1, 'nontrivial': int(nontrivial), 'outcomes': {program['_meta']['kind']: 1},
+           'viol': [{'faults': [], 'msgs': msgs}] if msgs else [], 'counters': {}}
+    if program.get('_cancel') and not msgs:
+        from .. import faults as F
+        bounds = []
+        ctx0 = run_one(program, (), observe=F.observer(bounds))
+        pts, _ = F.cancel_points(ctx0, bounds, victims=['tk'])
+        for k, v in pts:
+            f = [{'k': k, 'kind': 'cancel', 'victim': v, 'token': 'x'}]
+            _, m, _ = check_exec(program, f)
+            rep['execs'] += 1
+            rep['nontrivial'] += 1
+            rep['outcomes']['cancel'] = rep['outcomes'].get('cancel', 0) + 1
+            if m:
+                rep['viol'].append({'faults': f, 'msgs': m})
+    return rep
 
 
 def replay(case, faults):
